@@ -17,7 +17,8 @@ REG.klass("ValueMap", B + "backtesting.value_map.ValueMap", bases=["Dict[Str,Rea
 # --- backtesting: config ------------------------------------------------------------------------------------------
 REG.klass("Config", B + "backtesting.config.Config",
           fields={"_symbol_info": "Dict[Str,Val:SymbolInfo]", "_default_symbol_info": "Opt[Val:SymbolInfo]",
-                  "_pair_info": "Dict[Val:Pair,Val:PairInfo]", "_default_pair_info": "Opt[Val:PairInfo]"})
+                  "_pair_info": "Dict[Val:Pair,Val:PairInfo]", "_default_pair_info": "Opt[Val:PairInfo]"},
+          ghost={"gp": "MMap[Val:Pair,Val:PairInfo]", "gs": "MMap[Str,Val:SymbolInfo]"})
 
 # --- backtesting: account balances --------------------------------------------------------------------------------
 # ghost `account`: the AccountBalances the rule was pushed onto (rules judge a candidate against that account)
